@@ -204,6 +204,11 @@ func isValidBatchableWrite(cmdName string, args [][]byte, ts int64) bool {
 			return false
 		}
 		rk := key[pos+1:]
+		// with the value header the field keys carry the hash key in its versioned, memcomparable form
+		// (9 bytes for every 8, plus the version), and the handler checks that form against MaxKeySize
+		if (len(rk)/8+1)*9+64 > common.MaxKeySize {
+			return false
+		}
 		for i := 0; i < len(fvs); i += 2 {
 			if common.CheckKeySubKey(rk, fvs[i]) != nil || len(fvs[i+1]) > rockredis.MaxValueSize {
 				return false
